@@ -159,6 +159,8 @@ fn main() {
             "T32u128u64" => tree_cmd::<tree::T32u128u64>(&a),
             "T8u128u8" => tree_cmd::<tree::T8u128u8>(&a),
             "T32u32bps" => tree_cmd::<tree::T32u32bps>(&a),
+            "T32idtagu8" => tree_cmd::<tree::T32idtagu8>(&a),
+            "T8idtagu8" => tree_cmd::<tree::T8idtagu8>(&a),
             "T8u8bps" => tree_cmd::<tree::T8u8bps>(&a),
             t => panic!("unknown tree type {t}"),
         },
